@@ -422,41 +422,67 @@ def r_sense(ctx):
         any(dotted(t) == "self.expression" and dotted(s.value) == params_of(init)[1] for s in flow.stmts_of(init, ast.Assign) for t in s.targets)
     ctx.ob("R-SENSE", "Constraint.__init__::stores expression and sense as given", oks,
            "stores its two arguments unchanged" if oks else "does not store the expression / sense arguments unchanged", loc(init, init))
-    # cvxpy
+    # cvxpy: for each sense the constraint handed to the solver is `translation(expression) <= 0` / `== 0`; any other sense raises
+    from ..absint import PathEval, bool_decider, literal_test
     be = _be(repo, "cvxpy")
     fn = be.methods["send_constraint_to_solver"]
     ctx.unit(qualname(fn))
     cons = params_of(fn)[1]
-    found = {}
-    for s in flow.stmts_of(fn, ast.If):
-        arms, orelse = flow.closed_chain(s)
-        for t, body in arms:
-            lit = _sense_literal(t, cons)
-            if lit:
-                cmp_ = [n for b in body for n in ast.walk(b) if isinstance(n, ast.Compare)]
-                found[lit] = (cmp_, body)
-        if found:
-            break
+    subject = cons + ".equality_or_inequality"
+
+    def paths_for(f, value):
+        dec = bool_decider(lambda t: literal_test(t, subject, value))
+        ps = PathEval(f, dec, loop_mode="once").run()
+        return [p for p in ps if not (p.kind == "raise" and p.exc == "AssertionError")]
+
+    def origin(trace, name):
+        val = None
+        for ev in trace:
+            if isinstance(ev, ast.Assign) and any(dotted(t) == name for t in ev.targets):
+                val = ev.value
+        return val
+
+    accepted = set()
     for lit, want in (("inequality", ast.LtE), ("equality", ast.Eq)):
-        cmp_ = found.get(lit, ([], None))[0]
-        ok = len(cmp_) == 1 and isinstance(cmp_[0].ops[0], want) and is_const(cmp_[0].comparators[0], 0) \
-            and isinstance(cmp_[0].left, ast.Call) and call_name(cmp_[0].left) == "_expression_to_solver" \
-            and dotted(cmp_[0].left.args[0]) == cons + ".expression"
+        ps = paths_for(fn, lit)
+        ok = bool(ps) and all(p.kind != "raise" for p in ps)
+        what = "raises" if not ok else ""
+        if ok:
+            accepted.add(lit)
+            for p in ps:
+                apps = [ev.value for ev in p.trace if isinstance(ev, ast.Expr) and isinstance(ev.value, ast.Call) and call_name(ev.value) == "append"
+                        and dotted(ev.value.func.value) == "self." + SOLVER_CONS]
+                if len(apps) != 1:
+                    ok, what = False, "%d solver constraints appended" % len(apps)
+                    break
+                a = apps[0].args[0]
+                c = origin(p.trace, a.id) if isinstance(a, ast.Name) else a
+                if not (isinstance(c, ast.Compare) and len(c.ops) == 1):
+                    ok, what = False, "appends `%s`" % src(a)
+                    break
+                left = c.left
+                if isinstance(left, ast.Name):
+                    left = origin(p.trace, left.id)
+                good = isinstance(c.ops[0], want) and is_const(c.comparators[0], 0) and isinstance(left, ast.Call) and call_name(left) == "_expression_to_solver" \
+                    and left.args and dotted(left.args[0]) == cons + ".expression"
+                if not good:
+                    # also accept  0 >= translation  /  0 == translation
+                    l2, r2 = c.comparators[0], c.left
+                    if isinstance(l2, ast.Name):
+                        l2 = origin(p.trace, l2.id)
+                    flipped = {ast.LtE: ast.GtE, ast.Eq: ast.Eq}[want]
+                    good = isinstance(c.ops[0], flipped) and is_const(r2, 0) and isinstance(l2, ast.Call) and call_name(l2) == "_expression_to_solver" \
+                        and l2.args and dotted(l2.args[0]) == cons + ".expression"
+                if not good:
+                    ok, what = False, "becomes `%s`" % src(c)
+                    break
         ctx.ob("R-SENSE", "CvxpyWrapper.send_constraint_to_solver::%s" % lit, ok,
-               "'%s' becomes `translation(expression) %s 0`" % (lit, "<=" if want is ast.LtE else "==") if ok else
-               "'%s' becomes `%s`" % (lit, src(cmp_[0]) if cmp_ else "nothing"), loc(fn, fn))
-    ctx.ob("R-SENSE", "CvxpyWrapper.send_constraint_to_solver::literal set", set(found) == senses,
-           "dispatches on exactly the senses Constraint accepts" if set(found) == senses else "dispatches on %s, Constraint accepts %s" % (sorted(found), sorted(senses)), loc(fn, fn))
-    # the emitted solver constraint is the one appended
-    apps = [n for n in ast.walk(fn) if isinstance(n, ast.Call) and call_name(n) == "append" and dotted(n.func.value) == "self." + SOLVER_CONS]
-    names = set()
-    for lit, (cmp_, body) in found.items():
-        for b in body:
-            if isinstance(b, ast.Assign) and cmp_ and b.value is cmp_[0]:
-                names.add(b.targets[0].id)
-    oka = len(apps) == 1 and len(names) == 1 and dotted(apps[0].args[0]) in names
-    ctx.ob("R-SENSE", "CvxpyWrapper.send_constraint_to_solver::appends what it built", oka,
-           "the comparison built for the sense is what is appended" if oka else "the appended solver constraint is not the comparison built for the sense", loc(fn, fn))
+               "'%s' becomes `translation(expression) %s 0`" % (lit, "<=" if want is ast.LtE else "==") if ok else "'%s' %s" % (lit, what), loc(fn, fn))
+    other = paths_for(fn, "\0other")
+    closed = bool(other) and all(p.kind == "raise" for p in other)
+    ctx.ob("R-SENSE", "CvxpyWrapper.send_constraint_to_solver::literal set", closed and accepted == senses,
+           "accepts exactly the senses Constraint accepts and raises on anything else" if closed and accepted == senses else
+           "accepts %s (Constraint accepts %s); another sense %s" % (sorted(accepted), sorted(senses), "raises" if closed else "is silently accepted"), loc(fn, fn))
     # _expression_to_solver: cons + F @ Fweights + sum(G * Gweights)
     r_expr_to_solver(ctx, be)
     # MOSEK
@@ -464,26 +490,30 @@ def r_sense(ctx):
     fn = mb.methods["send_constraint_to_solver"]
     ctx.unit(qualname(fn))
     cons = params_of(fn)[1]
+    subject = cons + ".equality_or_inequality"
     tr = _sparse_unpack(fn)
-    found = {}
-    for s in flow.stmts_of(fn, ast.If):
-        arms, orelse = flow.closed_chain(s)
-        for t, body in arms:
-            lit = _sense_literal(t, cons)
-            if lit:
-                found[lit] = [n for b in body for n in ast.walk(b) if isinstance(n, ast.Call) and call_name(n) == "putconbound"]
-        if found:
-            break
     alpha = tr[5] if tr else None
+    accepted = set()
     for lit, key in (("inequality", "up"), ("equality", "fx")):
-        calls = found.get(lit, [])
-        ok = len(calls) == 1 and len(calls[0].args) == 4 and (dotted(calls[0].args[1]) or "").endswith("boundkey." + key) \
-            and _is_neg_of(calls[0].args[3], alpha) and (key == "up" or _is_neg_of(calls[0].args[2], alpha))
+        ps = paths_for(fn, lit)
+        ok = bool(ps) and all(p.kind != "raise" for p in ps)
+        what = "raises"
+        if ok:
+            accepted.add(lit)
+            for p in ps:
+                calls = [ev.value for ev in p.trace if isinstance(ev, ast.Expr) and isinstance(ev.value, ast.Call) and call_name(ev.value) == "putconbound"]
+                good = len(calls) == 1 and len(calls[0].args) == 4 and (dotted(calls[0].args[1]) or "").endswith("boundkey." + key) \
+                    and _is_neg_of(calls[0].args[3], alpha) and (key == "up" or _is_neg_of(calls[0].args[2], alpha))
+                if not good:
+                    ok, what = False, "becomes `%s`" % (src(calls[0]) if calls else "nothing")
+                    break
         ctx.ob("R-SENSE", "MosekWrapper.send_constraint_to_solver::%s" % lit, ok,
-               "'%s' becomes bound key %s with bound -constant" % (lit, key) if ok else
-               "'%s' becomes `%s`" % (lit, src(calls[0]) if calls else "nothing"), loc(fn, fn))
-    ctx.ob("R-SENSE", "MosekWrapper.send_constraint_to_solver::literal set", set(found) == senses,
-           "dispatches on exactly the senses Constraint accepts" if set(found) == senses else "dispatches on %s" % sorted(found), loc(fn, fn))
+               "'%s' becomes bound key %s with bound -constant" % (lit, key) if ok else "'%s' %s" % (lit, what), loc(fn, fn))
+    other = paths_for(fn, "\0other")
+    closed = bool(other) and all(p.kind == "raise" for p in other)
+    ctx.ob("R-SENSE", "MosekWrapper.send_constraint_to_solver::literal set", closed and accepted == senses,
+           "accepts exactly the senses Constraint accepts and raises on anything else" if closed and accepted == senses else
+           "accepts %s; another sense %s" % (sorted(accepted), "raises" if closed else "is silently accepted"), loc(fn, fn))
     fn = mb.methods["send_lmi_constraint_to_solver"]
     tr2 = _sparse_unpack(fn)
     calls = [n for n in ast.walk(fn) if isinstance(n, ast.Call) and call_name(n) == "putconbound"]
@@ -797,8 +827,12 @@ def r_rowidx(ctx):
     mb = _be(ctx.repo, "mosek")
     fn = mb.methods["send_constraint_to_solver"]
     ctx.unit(qualname(fn))
-    idx_app = [n for n in ast.walk(fn) if isinstance(n, ast.Call) and call_name(n) == "append" and dotted(n.func.value) == "self._constraint_index_in_mosek"]
     row_def = [s for s in flow.stmts_of(fn, ast.Assign) if isinstance(s.value, ast.Call) and call_name(s.value) == "getnumcon"]
+    # the row-index list is the self attribute (other than the tracked list) to which the row number is appended
+    rowvar = row_def[0].targets[0].id if len(row_def) == 1 and isinstance(row_def[0].targets[0], ast.Name) else None
+    idx_app = [n for n in ast.walk(fn) if isinstance(n, ast.Call) and call_name(n) == "append" and (dotted(n.func.value) or "").startswith("self.")
+               and n.args and dotted(n.args[0]) == rowvar and rowvar is not None]
+    ROWS = dotted(idx_app[0].func.value) if idx_app else "self._constraint_index_in_mosek"
     appendcons = [common.stmt_of(n) for n in ast.walk(fn) if isinstance(n, ast.Call) and call_name(n) == "appendcons"]
     ok = len(idx_app) == 1 and len(row_def) == 1 and len(appendcons) == 1 and row_def[0].lineno < appendcons[0].lineno \
         and dotted(idx_app[0].args[0]) == row_def[0].targets[0].id
@@ -828,7 +862,7 @@ def r_rowidx(ctx):
                        "the row-index array is built as `%s`: with numpy >= 2 adding the row number to an %s array raises OverflowError (or wraps) as soon as "
                        "the task has more rows than that type holds (128 rows for int8)" % (src(c.args[0]), (dotted(narrow[0].value) or "").split(".")[-1]), loc(f2, c))
     rec = mb.methods["_recover_dual_values"]
-    reads = [n for n in ast.walk(rec) if isinstance(n, ast.Subscript) and dotted(n.value) == "self._constraint_index_in_mosek"]
+    reads = [n for n in ast.walk(rec) if isinstance(n, ast.Subscript) and dotted(n.value) == ROWS]
     okr = len(reads) == 1
     if okr:
         # y[index_k] with k a counter incremented once per scalar constraint
@@ -1220,50 +1254,72 @@ def _run_index_program(fn, env, tril):
 
 
 def r_psdstore(ctx):
-    """PSDMatrix keeps Expression entries, turns a scalar entry c into the constant expression {1: c}, and rejects anything else; the matrix is square."""
+    """PSDMatrix keeps Expression entries, turns a scalar entry c into the constant expression {1: c}, and rejects anything else; the matrix is square.
+    Decided per entry kind by path enumeration of the conversion loop body (aliases of the entry resolved)."""
+    from ..absint import PathEval, bool_decider
     cls = ctx.repo.cls("PSDMatrix")
-    fn = cls.find_method("_store")
-    if fn is None:
-        raise AnalysisError("PSDMatrix._store missing")
-    ctx.unit(qualname(fn))
-    ifs = [s for s in flow.stmts_of(fn, ast.If) if any(isinstance(c, ast.Call) and call_name(c) == "isinstance" for c in ast.walk(s.test))]
-    ok = False
-    msg = "entry dispatch not found"
-    if ifs:
-        arms, orelse = flow.closed_chain(ifs[0])
-        kinds = {}
-        for t, body in arms:
-            ks = set()
-            for c in ast.walk(t):
-                if isinstance(c, ast.Call) and call_name(c) == "isinstance":
-                    k = c.args[1]
-                    for x in (k.elts if isinstance(k, ast.Tuple) else [k]):
-                        ks.add(dotted(x))
-            kinds[frozenset(ks)] = body
-        scal = kinds.get(frozenset({"int", "float"}))
-        expr = kinds.get(frozenset({"Expression"}))
-        ok = scal is not None and expr is not None and len(arms) == 2 and bool(orelse) and flow.always_raises(orelse)
-        msg = "dispatch on Expression / scalar, anything else raises" if ok else "dispatch arms are %s" % [sorted(k) for k in kinds]
-        if ok:
-            st = [s for s in scal if isinstance(s, ast.Assign)]
-            good = len(st) == 1 and isinstance(st[0].value, ast.Call) and call_name(st[0].value) == "Expression" and is_const(get_arg(st[0].value, 0, "is_leaf"), False)
-            if good:
-                dd = get_arg(st[0].value, 1, "decomposition_dict")
-                tgt_txt = src(st[0].targets[0])
-                val = dd.values[0] if isinstance(dd, ast.Dict) and len(dd.keys) == 1 else None
-                same = val is not None and (src(val) == tgt_txt or (isinstance(val, ast.Name) and any(
-                    isinstance(d, ast.Assign) and dotted(d.targets[0]) == val.id and src(d.value) == tgt_txt for d in flow.stmts_of(fn, ast.Assign))))
-                good = isinstance(dd, ast.Dict) and len(dd.keys) == 1 and is_const(dd.keys[0], 1) and same
-            ok = good and all(isinstance(s, ast.Pass) for s in expr)
-            if not ok:
-                msg = "a scalar entry c does not become the constant expression {1: c} in place (or Expression entries are altered)"
-    ctx.ob("R-PSDSTORE", "PSDMatrix._store::entries", ok, msg, loc(fn, fn))
-    sq = [a for a in ast.walk(fn) if isinstance(a, ast.Assert) and "shape" in src(a.test)]
-    ctx.ob("R-PSDSTORE", "PSDMatrix._store::square", bool(sq), "the matrix is asserted square" if sq else "no squareness assertion", loc(fn, fn))
     init = cls.methods["__init__"]
-    okc = any(isinstance(s, ast.Assign) and dotted(s.targets[0]) == "self.matrix_of_expressions" and isinstance(s.value, ast.Call) and call_name(s.value) == "_store" for s in init.body) \
-        and any(isinstance(s, ast.Assign) and dotted(s.targets[0]) == "self.shape" and src(s.value) == "self.matrix_of_expressions.shape" for s in init.body)
-    ctx.ob("R-PSDSTORE", "PSDMatrix.__init__", okc, "stores the converted matrix and its shape" if okc else "does not store the converted matrix / its shape", loc(init, init))
+    # the conversion routine is the method whose result becomes self.matrix_of_expressions
+    fn = None
+    for s0 in init.body:
+        if isinstance(s0, ast.Assign) and dotted(s0.targets[0]) == "self.matrix_of_expressions" and isinstance(s0.value, ast.Call):
+            fn = cls.find_method(call_name(s0.value))
+    if fn is None:
+        # the conversion may have been inlined into the constructor
+        fn = init
+    ctx.unit(qualname(fn))
+    stores = [a for a in ast.walk(fn) if isinstance(a, ast.Assign) and isinstance(a.targets[0], ast.Subscript) and isinstance(a.value, ast.Call) and call_name(a.value) == "Expression"]
+    ok = False
+    msg = "no conversion of scalar entries found"
+    if len(stores) == 1:
+        st = stores[0]
+        entry_txt = " ".join(src(st.targets[0]).split())
+        lp = flow.in_loop(st)
+        body = lp.body if lp is not None else fn.body
+        results = {}
+        for kind in ("Expression", "int", "float", "str"):
+            def atom(t, kind=kind):
+                if isinstance(t, ast.Call) and call_name(t) == "isinstance" and len(t.args) == 2 and " ".join(src(t.args[0]).split()) == entry_txt:
+                    ks = t.args[1].elts if isinstance(t.args[1], ast.Tuple) else [t.args[1]]
+                    return kind in {dotted(k) for k in ks}
+                return None
+            f = ast.FunctionDef(name="_entry", args=ast.arguments(posonlyargs=[], args=[], kwonlyargs=[], kw_defaults=[], defaults=[]), body=body, decorator_list=[])
+            ps = PathEval(f, bool_decider(atom), loop_mode="once").run()
+            outs = set()
+            for p in ps:
+                conv = [ev for ev in p.trace if isinstance(ev, ast.Assign) and isinstance(ev.targets[0], ast.Subscript) and " ".join(src(ev.targets[0]).split()) == entry_txt]
+                if p.kind == "raise":
+                    outs.add("raise " + p.exc)
+                elif conv:
+                    v = conv[0].value
+                    dd = get_arg(v, 1, "decomposition_dict") if isinstance(v, ast.Call) and call_name(v) == "Expression" else None
+                    good = dd is not None and isinstance(dd, ast.Dict) and len(dd.keys) == 1 and is_const(dd.keys[0], 1) and is_const(get_arg(v, 0, "is_leaf"), False)
+                    if good:
+                        val = dd.values[0]
+                        vt = " ".join(src(val).split())
+                        if vt != entry_txt and isinstance(val, ast.Name):
+                            d = [a for a in ast.walk(f) if isinstance(a, ast.Assign) and dotted(a.targets[0]) == val.id]
+                            vt = " ".join(src(d[0].value).split()) if len(d) == 1 else vt
+                        good = vt == entry_txt
+                    outs.add("constant-expression" if good else "converted to `%s`" % src(v)[:60])
+                else:
+                    outs.add("kept")
+            results[kind] = outs
+        want = {"Expression": {"kept"}, "int": {"constant-expression"}, "float": {"constant-expression"}, "str": {"raise TypeError"}}
+        ok = results == want
+        msg = "Expression entries are kept, a scalar c becomes the constant expression {1: c}, anything else raises TypeError" if ok else \
+            "per entry kind the conversion gives %s, expected %s" % ({k: sorted(v) for k, v in results.items()}, {k: sorted(v) for k, v in want.items()})
+    ctx.ob("R-PSDSTORE", "PSDMatrix::entry conversion", ok, msg, loc(fn, fn))
+    # the stored matrix is a copy: the conversion writes into it, and the caller may refill its own array for the next LMI
+    ws = [w0 for w0 in effects.writes_of(ctx.repo, fn) if w0.kind == "keyed" and not (w0.root == "fresh")]
+    ctx.ob("R-PSDSTORE", "PSDMatrix::stores a copy", not ws,
+           "the conversion writes into a new array, never into the caller's object" if not ws else
+           "entries are written into `%s`, which can be the caller's own array (%s): the stored LMI aliases it, and refilling that array for another LMI changes this one"
+           % (ws[0].path, ws[0].root), loc(fn, ws[0].node) if ws else loc(fn, fn))
+    sq = [a for a in ast.walk(fn) if isinstance(a, ast.Assert) and "shape" in src(a.test)]
+    ctx.ob("R-PSDSTORE", "PSDMatrix::square", bool(sq), "the matrix is asserted square" if sq else "no squareness assertion", loc(fn, fn))
+    okc = any(isinstance(s0, ast.Assign) and dotted(s0.targets[0]) == "self.shape" and src(s0.value) == "self.matrix_of_expressions.shape" for s0 in init.body)
+    ctx.ob("R-PSDSTORE", "PSDMatrix.__init__", okc, "stores the converted matrix and its shape" if okc else "does not store the shape of the converted matrix", loc(init, init))
     gi = cls.methods.get("__getitem__")
     okg = gi is not None and any(isinstance(r, ast.Return) and src(r.value) == "self.matrix_of_expressions[%s]" % params_of(gi)[1] for r in ast.walk(gi))
     ctx.ob("R-PSDSTORE", "PSDMatrix.__getitem__", okg, "indexing reads the stored matrix" if okg else "indexing does not read the stored matrix", loc(gi, gi) if gi else cls.module.rel)
